@@ -14,11 +14,11 @@ fn main() {
         check_pair::<B>(&l[(i / nr) as usize], &r[(i % nr) as usize], loc)
     }));
     // glue-edges: diagrams with a hyperedge, all pairs (matching and mismatching types)
-    let spec = if quick { Spec::open(2, 1, 2, 2, 1, 1, 2) } else { Spec::open(2, 1, 2, 2, 2, 2, 2) };
-    let u = spec.universe().all_open();
-    let n = u.len() as u64;
-    ctx.run_slice(Slice::new(format!("glue-edges[{}^2]", spec.name()), n * n, |i, loc| {
-        check_pair::<B>(&u[(i / n) as usize], &u[(i % n) as usize], loc)
+    let (sl, sr) = if quick { (Spec::open(2, 1, 2, 2, 1, 1, 2), Spec::open(2, 1, 2, 2, 1, 2, 2)) } else { (Spec::open(2, 1, 2, 2, 2, 2, 2), Spec::open(2, 1, 2, 2, 2, 2, 2)) };
+    let (ul, ur) = (sl.universe().all_open(), sr.universe().all_open());
+    let n = ur.len() as u64;
+    ctx.run_slice(Slice::new(format!("glue-edges[{} x {}]", sl.name(), sr.name()), ul.len() as u64 * n, |i, loc| {
+        check_pair::<B>(&ul[(i / n) as usize], &ur[(i % n) as usize], loc)
     }));
     if !quick {
         let l = Spec::open(3, 1, 2, 2, 1, 1, 2).universe().all_open();
@@ -30,7 +30,7 @@ fn main() {
     }
     let meta = Meta {
         rule: "every ordered pair (f,g) of the listed universes of well-formed open hypergraphs over u8 labels (types matching and mismatching); a case is non-trivial when the pair is composable and some identification class has >=2 members with a hyperedge present, or >=3 members".into(),
-        bounds: "glue-deep: <=3 nodes, no edges, boundaries <=3 (repeats allowed), 2 node labels; glue-edges: <=2 nodes, <=1 hyperedge of arity <=2, 2 node labels; glue-3 (thorough): <=3 nodes".into(),
+        bounds: "glue-deep: <=3 nodes, no edges, boundaries <=3 (repeats allowed), 2 node labels; glue-edges: <=2 nodes, <=1 hyperedge of arity <=2, 2 node labels, boundaries <=2 (quick: left operand input boundary <=1, one edge label); glue-3 (thorough): <=3 nodes".into(),
         assumptions: vec!["small-scope: sizes above the bounds are not explored".into(), "labels are u8 values from a 2-letter alphabet".into(), "Vec backend".into()],
         explanation: "explicit-state exploration of the real Arrow::compose / >> on every pair; oracle = isomorphism (interfaces pinned) with an independently computed gluing on the plain model; every execution is an implementation execution".into(),
     };
